@@ -329,8 +329,15 @@ def gen_sets(rng: random.Random, arena: Arena, blk: Block, first: bool, with_hex
                 rsize = NB if v in ("p", "q") else NBB
                 span = max(1, blk.n) if blk.key in ("ptr_rd", "ptr_wr") and used else 1
                 st[v] = rng.randrange(0, max(1, rsize - span + 1))
-                if used and blk.key in ("ptr_add", "ptr_index") and rng.random() < 0.3:
-                    st[v] = rng.choice([-3, -1, 0, rsize, 255, 256, -256] + ([1 << 12, -(1 << 12)] if w > 16 else []))
+                if used and blk.key in ("ptr_add", "ptr_index") and rng.random() < 0.5:
+                    if rng.random() < 0.4:
+                        st[v] = rng.choice([-3, -1, 0, rsize, 255, 256, -256] + ([1 << 12, -(1 << 12)] if w > 16 else []))
+                    else:
+                        # carry / borrow chains of every length: the ABSOLUTE op index sits right at a multiple of 2^j
+                        base_op = arena.labels[arena.var_ptr[v]] // (2 * w)
+                        j = rng.randrange(1, 15 if w > 16 else 8)
+                        m = max(1, (base_op >> j) + rng.choice([0, 1, 1, 2]))
+                        st[v] = (m << j) - base_op - rng.choice([0, 1, 1, 2, 3, 11])
         elif kind == "flipbyte":
             if first or rng.random() < 0.5:
                 st[v] = 0
